@@ -130,10 +130,13 @@ def build_frames(case):
     for fi, fr in enumerate(case["frames"]):
         objs = []
         for o in fr["objs"]:
+            qo = Quaternion(axis=[0.0, 0.0, 1.0], angle=math.pi * o["yaw16"] / 16)
+            if o.get("qneg"):
+                qo = Quaternion(-qo.q)
             objs.append(DynamicObject(
                 unix_time=fr["stamp"], frame_id=fids[o["frame"]],
                 position=tuple(k / 8 for k in o["pos8"]),
-                orientation=Quaternion(axis=[0.0, 0.0, 1.0], angle=math.pi * o["yaw16"] / 16),
+                orientation=qo,
                 shape=Shape(ShapeType.BOUNDING_BOX, (1.0 + (tag % 5) / 4, 1.0 + (tag % 3) / 2, 1.5)),
                 velocity=tuple(k / 8 for k in o["vel8"]),
                 semantic_score=1.0, semantic_label=Label(AutowareLabel.CAR, "car"),
@@ -215,7 +218,8 @@ def gen_objs(rng, frame_mode, present, state, max_new=1):
         st["vel8"] = [st["vel8"][0] + rng.randint(-8, 8), st["vel8"][1] + rng.randint(-8, 8), 0]
         st["yaw16"] = ((st["yaw16"] + rng.choice([-9, -5, -2, -1, 0, 0, 1, 2, 5, 9]) + 15) % 32) - 15
         fm = frame_mode if frame_mode != "mixed" else rng.choice(["map", "base_link"])
-        objs.append({"id": uid, "frame": fm, "pos8": list(st["pos8"]), "vel8": list(st["vel8"]), "yaw16": st["yaw16"]})
+        # the same orientation can be annotated as q or as -q (double cover); neighbouring frames often differ in that sign only
+        objs.append({"id": uid, "frame": fm, "pos8": list(st["pos8"]), "vel8": list(st["vel8"]), "yaw16": st["yaw16"], "qneg": rng.random() < 0.3})
     rng.shuffle(objs)
     return objs
 
